@@ -153,4 +153,4 @@ QUERIES = [
           bounds=lambda tier: {"recursion_limit": "1..4", "chain_length": "1..7"},
           outside=["limits above 4"]),
 ]
-BUDGET = {"quick": 400, "thorough": 2400}
+BUDGET = {"quick": 400, "thorough": 1200}
